@@ -198,6 +198,8 @@ SB_One == (0 :> <<>>) @@ (1 :> <<>>)
 RBaseChoices3 == {<<g, b>> : g \in 1..3,
                     b \in {<<>>} \cup {<<h>> : h \in 1..3}
                          \cup {<<h, k>> : h \in 1..3, k \in 1..3}}
+RBaseChoices3s == {<<g, b>> : g \in 1..3,
+                     b \in {<<>>} \cup {<<h>> : h \in 1..3}}
 RBaseChoices4 == {<<g, b>> : g \in 1..4,
                     b \in {<<>>} \cup {<<h>> : h \in 1..4}
                          \cup {<<h, k>> : h \in 1..4, k \in 1..4}}
